@@ -320,7 +320,9 @@ class ReturnStatementsTransformer(converter.Base):
 
   def visit_Try(self, node):
     node.body = self._visit_statement_block(node, node.body)
-    body_may_return = self.state[_Block].return_used
+    # Set by a return inside the body that was just visited (it is reset after
+    # every statement of the enclosing block).
+    body_may_return = self.state[_Block].create_guard_next
     node.orelse = self._visit_statement_block(node, node.orelse)
     if node.orelse and body_may_return:
       # The else clause runs when the body completes; once the return in the
